@@ -27,7 +27,8 @@ static const char* BUILD = "pure";
 template<glm::qualifier Q> const char* qn() { return (Q == QH) ? "highp" : (Q == QM) ? "mediump" : "lowp"; }
 #define EV(OP, T, Q, L) Ev(OP).str("t", TI<T>::code()).str("q", qn<Q>()).num("n", L)
 
-template<int L, class T, glm::qualifier Q> glm::vec<L, T, Q> mk(std::vector<T> const& v, size_t k) { glm::vec<L, T, Q> r; for (int i = 0; i < L; ++i) r[i] = v[(k + size_t(i) * 3) % v.size()]; return r; }
+template<int L, class T, glm::qualifier Q> glm::vec<L, T, Q> mk(std::vector<T> const& v, size_t k) { glm::vec<L, T, Q> r; std::memset(static_cast<void*>(&r), 0xFF, sizeof r);   /* padding lanes of aligned vec3 / dvec3: a NaN pattern, never a copy of a component */
+    for (int i = 0; i < L; ++i) r[i] = v[(k + size_t(i) * 3) % v.size()]; return r; }
 
 template<class T> std::vector<T> specials() { std::vector<T> v; for (uint64_t b : lattice<T>()) v.push_back(from_bits<T>(b)); return v; }
 template<class T> std::vector<T> moderate() {
